@@ -293,6 +293,33 @@ fn panicking_get_or_init(panics: usize) -> Option<String> {
     if bad.is_empty() { None } else { Some(bad.join("; ")) }
 }
 
+/// a cell built with its value: initialised from the start, no initialiser ever runs, the value is
+/// dropped once with the cell
+fn with_value_scenario() -> Option<String> {
+    let c = Arc::new(Counters::default());
+    let cell: OnceInitCell<Seed, Val> = OnceInitCell::with_value(Val { c: c.clone(), n: 9 });
+    let mut bad = vec![];
+    if cell.get().map(|v| v.n) != Some(9) {
+        bad.push("with_value: get() does not return the value".to_string());
+    }
+    let ran = std::sync::atomic::AtomicBool::new(false);
+    let v = cell
+        .get_or_init(|_| {
+            ran.store(true, Ordering::SeqCst);
+            Val { c: c.clone(), n: 1 }
+        })
+        .n;
+    if v != 9 || ran.load(Ordering::SeqCst) {
+        bad.push(format!("with_value: get_or_init ran an initialiser or returned {v}"));
+    }
+    drop(cell);
+    let (sd, vd) = (c.seed_drops.load(Ordering::SeqCst), c.value_drops.load(Ordering::SeqCst));
+    if sd != 0 || vd != 1 {
+        bad.push(format!("with_value: seed dropped {sd} times, value dropped {vd} times"));
+    }
+    if bad.is_empty() { None } else { Some(bad.join("; ")) }
+}
+
 /// a value type WITHOUT drop glue and a tracked seed: whatever happened before, dropping the cell
 /// must leave the seed dropped exactly once
 fn scenario_plain_value(outs: &[Out]) -> Option<String> {
@@ -387,6 +414,8 @@ pub fn run(a: &Args) {
         evals += 1;
         bad.extend(panicking_get_or_init(k));
     }
+    evals += 1;
+    bad.extend(with_value_scenario());
     evals += 2;
     bad.extend(get_does_not_block());
     bad.extend(get_during_seed_destructor());
